@@ -1,0 +1,382 @@
+//go:build verif
+
+// Contracts for package strategy, read by /verif's gcv (comment-only file).
+package strategy
+
+//@ type PreciseStrategy
+//@   guarded mu: inFlight, limit
+//@   immutable: metricListener
+//@   inv[C01,C02] counts: this.inFlight >= 0 && this.limit >= 1
+
+//@ func (*PreciseStrategy).TryAcquire
+//@   maintains[C01,C02] s
+//@   ensures[C01] gate_iff: ok <==> old(s.inFlight) < old(s.limit)
+//@   ensures[C01,C02] grant: ok ==> s.inFlight == old(s.inFlight) + 1 && s.inFlight <= s.limit
+//@   ensures[C01,C02] refuse: !ok ==> s.inFlight == old(s.inFlight)
+//@   ensures[C01,C05] limit_unchanged: s.limit == old(s.limit)
+//@   ensures[C02] token_shape: dyntype(token, "*core.StaticStrategyToken") && as(token, "*core.StaticStrategyToken").acquired == ok
+//@   ensures[C02] token_release: ok ==> isfunc(as(token, "*core.StaticStrategyToken").releaseFunc, "(*strategy.PreciseStrategy).releaseHandler$bound") && captured(as(token, "*core.StaticStrategyToken").releaseFunc, "(*strategy.PreciseStrategy).releaseHandler$bound", 0) == s
+//@   ensures[C20] sample_once: ncalls("core.MetricSampleListener.AddSample") == 1 && callrecv("core.MetricSampleListener.AddSample", 0) == s.metricListener
+//@   ensures[C20] sample_value: callarg("core.MetricSampleListener.AddSample", 0, 0) == float64(s.inFlight)
+//@   ensures[C20] token_count: as(token, "*core.StaticStrategyToken").inFlightCount == int(s.inFlight)
+//@   assigns s.inFlight
+//@   owns[C17]
+//@   safety[C01]
+
+//@ func (*PreciseStrategy).releaseHandler
+//@   requires held_token: s.inFlight >= 1
+//@   maintains[C02] s
+//@   ensures[C02] one_unit: s.inFlight == old(s.inFlight) - 1
+//@   ensures[C01,C02] limit_unchanged: s.limit == old(s.limit)
+//@   assigns s.inFlight
+//@   owns[C17]
+
+//@ func (*PreciseStrategy).SetLimit
+//@   requires fits: limit <= MaxInt32
+//@   maintains[C01,C05] s
+//@   ensures[C01,C05] floor: s.limit == max(1, limit)
+//@   ensures[C01,C02] revokes_nothing: s.inFlight == old(s.inFlight)
+//@   assigns s.limit
+//@   owns[C17]
+
+//@ func (*PreciseStrategy).GetLimit
+//@   ensures[C20] value: result == int(s.limit)
+//@   assigns nothing
+//@   owns[C17]
+
+//@ func (*PreciseStrategy).GetBusyCount
+//@   ensures[C20] value: result == int(s.inFlight)
+//@   assigns nothing
+//@   owns[C17]
+
+// SimpleStrategy keeps its counters in two heap cells that are touched only through sync/atomic.
+// The rely relations describe what other goroutines may do to a cell between two atomic
+// operations of one call when the strategy is driven through a DefaultLimiter, whose mutex
+// serialises TryAcquire and SetLimit (assumption A11): only token releases interfere.
+//@ type SimpleStrategy
+//@   immutable: inFlight, limit, metricListener
+//@   atomiccell: inFlight, limit
+//@   rely inFlight: 0 <= new && new <= old
+//@   rely limit: new == old
+//@   inv[C01,C02] cells: this.inFlight != nil && this.limit != nil && this.inFlight != this.limit
+//@   inv[C01,C02] counts: *this.inFlight >= 0 && *this.limit >= 1
+
+//@ func (*SimpleStrategy).TryAcquire
+//@   maintains[C01,C02] s
+//@   bind seen = call 1 sync/atomic.LoadInt32
+//@   bind lim = call 2 sync/atomic.LoadInt32
+//@   ensures[C01] gate_iff: ok <==> old(*s.inFlight) < old(*s.limit)
+//@   ensures[C01,C02] grant: ok ==> *s.inFlight == old(*s.inFlight) + 1 && *s.inFlight <= *s.limit
+//@   ensures[C01,C02] refuse: !ok ==> *s.inFlight == old(*s.inFlight)
+//@   ensures[C01,C05] limit_unchanged: *s.limit == old(*s.limit)
+//@   ensures[C02] token_shape: dyntype(token, "*core.StaticStrategyToken") && as(token, "*core.StaticStrategyToken").acquired == ok
+//@   ensures[C02] token_release: ok ==> isfunc(as(token, "*core.StaticStrategyToken").releaseFunc, "(*strategy.SimpleStrategy).TryAcquire$1$1") && *captured(as(token, "*core.StaticStrategyToken").releaseFunc, "(*strategy.SimpleStrategy).TryAcquire$1$1", 0) == s.inFlight
+//@   ensures[C20] sample_once: ncalls("core.MetricSampleListener.AddSample") == 1 && callrecv("core.MetricSampleListener.AddSample", 0) == s.metricListener
+//@   ensures[C20] sample_value: callarg("core.MetricSampleListener.AddSample", 0, 0) == float64(*s.inFlight)
+//@   ensures[C20] token_count: as(token, "*core.StaticStrategyToken").inFlightCount == int(*s.inFlight)
+//@   rensures[C01] decision_instant: (ok <==> seen < lim) && 0 <= seen && seen <= old(*s.inFlight) && lim == old(*s.limit)
+//@   rensures[C01,C02] one_unit_atomically: ok ==> ncalls("atomic.Add") == 1 && callarg("atomic.Add", 0, 1) == 1 && ncalls("atomic.Store") == 0 && *s.inFlight <= seen + 1 && *s.inFlight <= lim
+//@   rensures[C02] refusal_writes_nothing: !ok ==> ncalls("atomic.Add") == 0 && ncalls("atomic.Store") == 0
+//@   assigns *s.inFlight
+//@   owns[C17]
+
+//@ func (*SimpleStrategy).TryAcquire$1
+//@   ensures[C02] closure: isfunc(result, "(*strategy.SimpleStrategy).TryAcquire$1$1") && *captured(result, "(*strategy.SimpleStrategy).TryAcquire$1$1", 0) == ref
+//@   assigns nothing
+
+//@ func (*SimpleStrategy).TryAcquire$1$1
+//@   requires cell: ref != nil
+//@   requires held_token: *ref >= 1
+//@   ensures[C02] one_unit: *ref == old(*ref) - 1
+//@   ensures[C02] atomically: ncalls("atomic.Add") == 1
+//@   assigns *ref
+
+//@ func (*SimpleStrategy).SetLimit
+//@   requires fits: limit <= MaxInt32
+//@   maintains[C01,C05] s
+//@   ensures[C01,C05] floor: *s.limit == max(1, limit)
+//@   ensures[C01,C02] revokes_nothing: *s.inFlight == old(*s.inFlight)
+//@   assigns *s.limit
+//@   owns[C17]
+
+//@ func (*SimpleStrategy).GetLimit
+//@   maintains s
+//@   ensures[C20] value: result == int(*s.limit)
+//@   assigns nothing
+//@   owns[C17]
+
+//@ func (*SimpleStrategy).GetBusyCount
+//@   maintains s
+//@   ensures[C20] value: result == int(*s.inFlight)
+//@   assigns nothing
+//@   owns[C17]
+
+// ---------------------------------------------------------------------------------------------
+// Partitioned strategies (C03, C05). share() is the property's formula written with the same
+// float model as the code.
+//@ opaque share(total int32, pct float64) int32 = int32(max(1.0, ceil(float64(total)*pct)))
+
+//@ lemma[C03,C05] share_min(total int32, pct float64): total >= 1 && isFinite(pct) && 0.0 <= pct && pct <= 1.0 ==> 1 <= share(total, pct) && share(total, pct) <= total && (pct == 0.0 ==> share(total, pct) == 1)
+
+//@ type LookupPartition
+//@   guarded mu: limit, busy
+//@   immutable: name, percent, MetricSampleListener
+//@   inv pct: isFinite(this.percent) && 0.0 <= this.percent && this.percent <= 1.0
+//@   inv[C03] counts: this.busy >= 0 && this.limit >= 1
+
+//@ func (*LookupPartition).UpdateLimit
+//@   reveal share
+//@   requires tot: 1 <= totalLimit
+//@   maintains[C03] p
+//@   ensures[C03,C05] share: p.limit == share(totalLimit, p.percent)
+//@   ensures[C03] busy_unchanged: p.busy == old(p.busy)
+//@   assigns p.limit
+//@   owns[C17]
+//@   safety[C03]
+
+//@ func (*LookupPartition).IsLimitExceeded
+//@   ensures[C03] value: result <==> p.busy >= p.limit
+//@   assigns nothing
+//@   owns[C17]
+
+//@ func (*LookupPartition).Acquire
+//@   requires room: p.busy < MaxInt32
+//@   ensures[C03,C02] one_unit: p.busy == old(p.busy) + 1
+//@   ensures[C03] limit_unchanged: p.limit == old(p.limit)
+//@   ensures[C20] sample: ncalls("core.MetricSampleListener.AddSample") == 1 && callarg("core.MetricSampleListener.AddSample", 0, 0) == float64(p.busy) && callrecv("core.MetricSampleListener.AddSample", 0) == p.MetricSampleListener
+//@   assigns p.busy
+//@   owns[C17]
+
+//@ func (*LookupPartition).Release
+//@   requires held_token: p.busy >= 1
+//@   ensures[C03,C02] one_unit: p.busy == old(p.busy) - 1
+//@   ensures[C03] limit_unchanged: p.limit == old(p.limit)
+//@   assigns p.busy
+//@   owns[C17]
+
+//@ func (*LookupPartition).BusyCount
+//@   ensures[C03] value: result == int(p.busy)
+//@   assigns nothing
+//@   owns[C17]
+
+//@ func (*LookupPartition).Limit
+//@   ensures[C03,C20] value: result == int(p.limit)
+//@   assigns nothing
+//@   owns[C17]
+
+//@ func (*LookupPartition).Percent
+//@   ensures[C03] value: result == p.percent
+//@   assigns nothing
+
+//@ type LookupPartitionStrategy
+//@   guarded mu: partitions, busy, limit
+//@   immutable: unknownPartition, lookupFunc
+//@   inv[C03] counts: this.busy >= 0 && this.limit >= 1
+//@   inv[C03] unknown: this.unknownPartition != nil && this.unknownPartition.percent == 0.0 && this.unknownPartition.limit == 1 && this.unknownPartition.busy >= 0
+//@   inv[C03] bins: forall k string :: has(this.partitions, k) ==> this.partitions[k] != nil && inv(this.partitions[k])
+//@   inv[C03,C05] shares: forall k string :: has(this.partitions, k) ==> this.partitions[k].limit == share(this.limit, this.partitions[k].percent)
+
+//@ define lookupBin(s *strategy.LookupPartitionStrategy, key string) *strategy.LookupPartition = ite(has(s.partitions, key), s.partitions[key], s.unknownPartition)
+
+//@ func (*LookupPartitionStrategy).TryAcquire
+//@   maintains[C03] s
+//@   requires room: s.busy < MaxInt32 && forall p *strategy.LookupPartition :: p.busy < MaxInt32
+//@   bind key = call 1 funcvalue:strategy.LookupPartitionStrategy.lookupFunc
+//@   ensures[C03] admit_iff: ok <==> (old(s.busy) < old(s.limit) || old(lookupBin(s, key).busy) < old(lookupBin(s, key).limit))
+//@   ensures[C03,C02] charge: ok ==> s.busy == old(s.busy) + 1 && lookupBin(s, key).busy == old(lookupBin(s, key).busy) + 1
+//@   ensures[C03,C02] refuse: !ok ==> s.busy == old(s.busy) && lookupBin(s, key).busy == old(lookupBin(s, key).busy)
+//@   ensures[C03] other_bins: forall q *strategy.LookupPartition :: q != lookupBin(s, key) ==> q.busy == old(q.busy)
+//@   ensures[C03,C05] limits_unchanged: s.limit == old(s.limit) && forall q *strategy.LookupPartition :: q.limit == old(q.limit)
+//@   ensures[C02] token_shape: dyntype(token, "*core.StaticStrategyToken") && as(token, "*core.StaticStrategyToken").acquired == ok
+//@   ensures[C02,C03] token_release: ok ==> isfunc(as(token, "*core.StaticStrategyToken").releaseFunc, "(*strategy.LookupPartitionStrategy).releasePartition$1") && *captured(as(token, "*core.StaticStrategyToken").releaseFunc, "(*strategy.LookupPartitionStrategy).releasePartition$1", 0) == s && *captured(as(token, "*core.StaticStrategyToken").releaseFunc, "(*strategy.LookupPartitionStrategy).releasePartition$1", 1) == lookupBin(s, key)
+//@   ensures[C20] token_count: as(token, "*core.StaticStrategyToken").inFlightCount == int(s.busy)
+//@   assigns s.busy, lookupBin(s, key).busy
+//@   owns[C17]
+
+//@ func (*LookupPartitionStrategy).releasePartition
+//@   ensures[C02,C03] closure: isfunc(result, "(*strategy.LookupPartitionStrategy).releasePartition$1") && *captured(result, "(*strategy.LookupPartitionStrategy).releasePartition$1", 0) == s && *captured(result, "(*strategy.LookupPartitionStrategy).releasePartition$1", 1) == partition
+//@   assigns nothing
+
+//@ func (*LookupPartitionStrategy).releasePartition$1
+//@   requires objs: s != nil && partition != nil
+//@   requires held_token: s.busy >= 1 && partition.busy >= 1
+//@   ensures[C02,C03] one_unit: s.busy == old(s.busy) - 1 && partition.busy == old(partition.busy) - 1
+//@   ensures[C03] other_bins: forall q *strategy.LookupPartition :: q != partition ==> q.busy == old(q.busy)
+//@   ensures[C03,C05] limits_unchanged: s.limit == old(s.limit) && forall q *strategy.LookupPartition :: q.limit == old(q.limit)
+//@   assigns s.busy, partition.busy
+//@   owns[C17]
+
+//@ func (*LookupPartitionStrategy).SetLimit
+//@   requires fits: limit <= MaxInt32
+//@   maintains[C03,C05] s
+//@   ensures[C03,C05] floor: s.limit == int32(max(1, limit))
+//@   ensures[C03,C02] busy_unchanged: s.busy == old(s.busy) && forall q *strategy.LookupPartition :: q.busy == old(q.busy)
+//@   loop 1 invariant[C03,C05] visited_shares: forall k string :: #visited[k] ==> s.partitions[k].limit == share(int32(max(1, limit)), s.partitions[k].percent)
+//@   loop 1 invariant[C03,C05] frame: s.limit == int32(max(1, limit)) && s.unknownPartition.limit == 1 && (forall k string :: has(s.partitions, k) ==> s.partitions[k].limit >= 1)
+//@   owns[C17]
+
+//@ func (*LookupPartitionStrategy).AddPartition
+//@   requires part: partition != nil && inv(partition)
+//@   maintains[C03] s
+//@   ensures[C03] added: result <==> !old(has(s.partitions, name))
+//@   ensures[C03] new_bin: result ==> has(s.partitions, name) && s.partitions[name] == partition && partition.limit == share(s.limit, partition.percent)
+//@   ensures[C03] existing_kept: !result ==> s.partitions[name] == old(s.partitions[name]) && partition.limit == old(partition.limit)
+//@   ensures[C03] counts_unchanged: s.busy == old(s.busy) && s.limit == old(s.limit) && forall q *strategy.LookupPartition :: q.busy == old(q.busy)
+//@   owns[C17]
+
+//@ func (*LookupPartitionStrategy).RemovePartition
+//@   maintains[C03] s
+//@   ensures[C03] found: ret1 <==> old(has(s.partitions, name))
+//@   ensures[C03] removed: !has(s.partitions, name)
+//@   ensures[C03] reports_bin: ret1 ==> ret0 == int(old(s.partitions[name]).busy)
+//@   ensures[C03] counts_unchanged: s.busy == old(s.busy) && s.limit == old(s.limit) && forall q *strategy.LookupPartition :: q.busy == old(q.busy) && q.limit == old(q.limit)
+//@   owns[C17]
+
+//@ func (*LookupPartitionStrategy).BusyCount
+//@   ensures[C03] value: result == int(s.busy)
+//@   assigns nothing
+//@   owns[C17]
+
+//@ func (*LookupPartitionStrategy).Limit
+//@   ensures[C03,C20] value: result == int(s.limit)
+//@   assigns nothing
+//@   owns[C17]
+
+//@ func (*LookupPartitionStrategy).BinBusyCount
+//@   maintains s
+//@   ensures[C03] value: has(s.partitions, key) ==> ret0 == int(s.partitions[key].busy) && ret1 == nil
+//@   ensures[C03] unknown_key: !has(s.partitions, key) ==> ret1 != nil
+//@   assigns nothing
+//@   owns[C17]
+
+//@ func (*LookupPartitionStrategy).BinLimit
+//@   maintains s
+//@   ensures[C03,C05] value: has(s.partitions, key) ==> ret0 == int(s.partitions[key].limit) && ret1 == nil
+//@   ensures[C03] unknown_key: !has(s.partitions, key) ==> ret1 != nil
+//@   assigns nothing
+//@   owns[C17]
+
+// ---------------------------------------------------------------------------------------------
+// Predicate strategy
+
+//@ type PredicatePartition
+//@   guarded mu: limit, busy
+//@   immutable: name, percent, MetricSampleListener, predicate
+//@   inv pct: isFinite(this.percent) && 0.0 <= this.percent && this.percent <= 1.0
+//@   inv[C03] counts: this.busy >= 0 && this.limit >= 1
+
+// The predicate of a partition is a pure function of the request context (valid configuration).
+//@ func strategy.PredicatePartition.predicate params ctx
+//@   pure
+
+//@ func (*PredicatePartition).UpdateLimit
+//@   reveal share
+//@   requires tot: 1 <= totalLimit
+//@   maintains[C03] p
+//@   ensures[C03,C05] share: p.limit == share(totalLimit, p.percent)
+//@   ensures[C03] busy_unchanged: p.busy == old(p.busy)
+//@   assigns p.limit
+//@   owns[C17]
+//@   safety[C03]
+
+//@ func (*PredicatePartition).IsLimitExceeded
+//@   ensures[C03] value: result <==> p.busy >= p.limit
+//@   assigns nothing
+//@   owns[C17]
+
+//@ func (*PredicatePartition).Acquire
+//@   requires room: p.busy < MaxInt32
+//@   ensures[C03,C02] one_unit: p.busy == old(p.busy) + 1
+//@   ensures[C03] limit_unchanged: p.limit == old(p.limit)
+//@   ensures[C20] sample: ncalls("core.MetricSampleListener.AddSample") == 1 && callarg("core.MetricSampleListener.AddSample", 0, 0) == float64(p.busy) && callrecv("core.MetricSampleListener.AddSample", 0) == p.MetricSampleListener
+//@   assigns p.busy
+//@   owns[C17]
+
+//@ func (*PredicatePartition).Release
+//@   requires held_token: p.busy >= 1
+//@   ensures[C03,C02] one_unit: p.busy == old(p.busy) - 1
+//@   ensures[C03] limit_unchanged: p.limit == old(p.limit)
+//@   assigns p.busy
+//@   owns[C17]
+
+//@ func (*PredicatePartition).BusyCount
+//@   ensures[C03] value: result == int(p.busy)
+//@   assigns nothing
+//@   owns[C17]
+
+//@ func (*PredicatePartition).Limit
+//@   ensures[C03,C20] value: result == int(p.limit)
+//@   assigns nothing
+//@   owns[C17]
+
+//@ func (*PredicatePartition).Percent
+//@   ensures[C03] value: result == p.percent
+//@   assigns nothing
+
+//@ func (*PredicatePartition).String
+//@   owns[C17]
+
+//@ type PredicatePartitionStrategy
+//@   guarded mu: partitions, busy, limit
+//@   inv[C03] counts: this.busy >= 0 && this.limit >= 1
+//@   inv[C03] bins: forall i int :: 0 <= i && i < len(this.partitions) ==> this.partitions[i] != nil && inv(this.partitions[i])
+//@   inv[C03,C05] shares: forall i int :: 0 <= i && i < len(this.partitions) ==> this.partitions[i].limit == share(this.limit, this.partitions[i].percent)
+
+//@ define matches(p *strategy.PredicatePartition, ctx context.Context) bool = apply(p.predicate, "strategy.PredicatePartition.predicate", ctx)
+//@ define firstMatch(s *strategy.PredicatePartitionStrategy, ctx context.Context, i int) bool = 0 <= i && i < len(s.partitions) && matches(s.partitions[i], ctx) && (forall j int :: 0 <= j && j < i ==> !matches(s.partitions[j], ctx))
+
+//@ func (*PredicatePartitionStrategy).TryAcquire
+//@   maintains[C03] s
+//@   requires room: s.busy < MaxInt32 && forall p *strategy.PredicatePartition :: p.busy < MaxInt32
+//@   loop 1 invariant[C03] scanned: -1 <= #rangeindex && #rangeindex < len(s.partitions) && (forall j int :: 0 <= j && j <= #rangeindex ==> !matches(s.partitions[j], ctx))
+//@   ensures[C03] no_match_refused: (forall i int :: 0 <= i && i < len(s.partitions) ==> !matches(s.partitions[i], ctx)) ==> !ret1 && s.busy == old(s.busy) && (forall q *strategy.PredicatePartition :: q.busy == old(q.busy))
+//@   ensures[C03] admit_iff: forall i int :: firstMatch(s, ctx, i) ==> (ret1 <==> (old(s.busy) < old(s.limit) || old(s.partitions[i].busy) < old(s.partitions[i].limit)))
+//@   ensures[C03,C02] charge_first: forall i int :: firstMatch(s, ctx, i) ==> (ret1 ==> s.busy == old(s.busy) + 1 && s.partitions[i].busy == old(s.partitions[i].busy) + 1 && (forall q *strategy.PredicatePartition :: q != s.partitions[i] ==> q.busy == old(q.busy)))
+//@   ensures[C03,C02] refuse: !ret1 ==> s.busy == old(s.busy) && (forall q *strategy.PredicatePartition :: q.busy == old(q.busy))
+//@   ensures[C03,C05] limits_unchanged: s.limit == old(s.limit) && forall q *strategy.PredicatePartition :: q.limit == old(q.limit)
+//@   ensures[C02] token_shape: dyntype(ret0, "*core.StaticStrategyToken") && as(ret0, "*core.StaticStrategyToken").acquired == ret1
+//@   ensures[C02,C03] token_release: forall i int :: firstMatch(s, ctx, i) ==> (ret1 ==> isfunc(as(ret0, "*core.StaticStrategyToken").releaseFunc, "(*strategy.PredicatePartitionStrategy).releasePartition$1") && *captured(as(ret0, "*core.StaticStrategyToken").releaseFunc, "(*strategy.PredicatePartitionStrategy).releasePartition$1", 0) == s && *captured(as(ret0, "*core.StaticStrategyToken").releaseFunc, "(*strategy.PredicatePartitionStrategy).releasePartition$1", 1) == s.partitions[i])
+//@   ensures[C20] token_count: as(ret0, "*core.StaticStrategyToken").inFlightCount == int(s.busy)
+//@   owns[C17]
+
+//@ func (*PredicatePartitionStrategy).releasePartition
+//@   ensures[C02,C03] closure: isfunc(result, "(*strategy.PredicatePartitionStrategy).releasePartition$1") && *captured(result, "(*strategy.PredicatePartitionStrategy).releasePartition$1", 0) == s && *captured(result, "(*strategy.PredicatePartitionStrategy).releasePartition$1", 1) == partition
+//@   assigns nothing
+
+//@ func (*PredicatePartitionStrategy).releasePartition$1
+//@   requires objs: s != nil && partition != nil
+//@   requires held_token: s.busy >= 1 && partition.busy >= 1
+//@   ensures[C02,C03] one_unit: s.busy == old(s.busy) - 1 && partition.busy == old(partition.busy) - 1
+//@   ensures[C03] other_bins: forall q *strategy.PredicatePartition :: q != partition ==> q.busy == old(q.busy)
+//@   ensures[C03,C05] limits_unchanged: s.limit == old(s.limit) && forall q *strategy.PredicatePartition :: q.limit == old(q.limit)
+//@   assigns s.busy, partition.busy
+//@   owns[C17]
+
+//@ func (*PredicatePartitionStrategy).SetLimit
+//@   requires fits: limit <= MaxInt32
+//@   maintains[C03,C05] s
+//@   ensures[C03,C05] floor: s.limit == int32(max(1, limit))
+//@   ensures[C03,C02] busy_unchanged: s.busy == old(s.busy) && forall q *strategy.PredicatePartition :: q.busy == old(q.busy)
+//@   loop 1 invariant[C03,C05] visited_shares: -1 <= #rangeindex && #rangeindex < len(s.partitions) && (forall j int :: 0 <= j && j <= #rangeindex ==> s.partitions[j].limit == share(int32(max(1, limit)), s.partitions[j].percent))
+//@   loop 1 invariant[C03,C05] frame: forall j int :: 0 <= j && j < len(s.partitions) ==> s.partitions[j].limit >= 1
+//@   owns[C17]
+
+//@ func (*PredicatePartitionStrategy).AddPartition
+//@   requires part: partition != nil && inv(partition)
+//@   maintains[C03] s
+//@   loop 1 invariant[C03] scanned: -1 <= #rangeindex && #rangeindex < len(s.partitions) && (forall j int :: 0 <= j && j <= #rangeindex ==> s.partitions[j] != partition)
+//@   ensures[C03] added: result <==> (forall j int :: 0 <= j && j < old(len(s.partitions)) ==> old(s.partitions[j]) != partition)
+//@   ensures[C03] appended: result ==> len(s.partitions) == old(len(s.partitions)) + 1 && s.partitions[old(len(s.partitions))] == partition && partition.limit == share(s.limit, partition.percent) && (forall j int :: 0 <= j && j < old(len(s.partitions)) ==> s.partitions[j] == old(s.partitions[j]))
+//@   ensures[C03] unchanged_if_present: !result ==> s.partitions == old(s.partitions) && partition.limit == old(partition.limit)
+//@   ensures[C03] counts_unchanged: s.busy == old(s.busy) && s.limit == old(s.limit) && forall q *strategy.PredicatePartition :: q.busy == old(q.busy)
+//@   owns[C17]
+
+//@ func (*PredicatePartitionStrategy).BusyCount
+//@   ensures[C03] value: result == int(s.busy)
+//@   assigns nothing
+//@   owns[C17]
+
+//@ func (*PredicatePartitionStrategy).Limit
+//@   ensures[C03,C20] value: result == int(s.limit)
+//@   assigns nothing
+//@   owns[C17]
